@@ -23,5 +23,11 @@ def main : IO Unit := do
       let h (f : Fmt) (x : Fl) := flHex f x
       out.putStrLn s!"unit {q.modName} {i} {u.name} {hexOfStr u.abbr} {hexOfStr u.sing} {hexOfStr u.plur} {h b64 (u.coefFl b64)} {h b64 (u.consFl b64 true)} {h b64 (u.consFl b64 false)} {h b32 (u.coefFl b32)} {h b32 (u.consFl b32 true)} {h b32 (u.consFl b32 false)}"
       i := i + 1
+  let mut ki := 0
+  for k in Gen.kinds do
+    out.putStrLn s!"kind {ki} {k.name} {",".intercalate (k.markers.map toString)}"
+    ki := ki + 1
+  for p in Gen.implFrom do
+    out.putStrLn s!"implfrom {p.1} {p.2}"
   for b in Gen.system.base do
     out.putStrLn s!"base {b.name} {b.unit}"
